@@ -13,8 +13,22 @@ SPEC = os.path.join(VERIF, "spec")
 MC = os.path.join(SPEC, "mc")
 HARNESS = os.path.join(VERIF, "harness")
 OUT = os.path.join(VERIF, "out")
-REPO = "/repo"
+# PV_REPO: check a scratch copy / worktree of pushr instead of /repo (used for seeded changes while
+# other runs use /repo); the registered checks never set it, so they build /repo's working tree.
+REPO = os.environ.get("PV_REPO", "/repo")
+ALT = REPO != "/repo"
 NCPU = os.cpu_count() or 4
+
+
+if ALT:   # runs against a scratch copy keep their files (and evidence) apart
+    OUT = os.path.join(OUT, "alt-" + hashlib.sha1(REPO.encode()).hexdigest()[:10])
+EVIDENCE_DIR = os.path.join(VERIF, "evidence") if not ALT else os.path.join(OUT, "evidence")
+
+
+def _target_root():
+    if not ALT:
+        return os.path.join(HARNESS, "target")
+    return os.path.join(HARNESS, "target", "alt-" + hashlib.sha1(REPO.encode()).hexdigest()[:10])
 
 
 class ToolError(Exception):
@@ -36,14 +50,16 @@ def build_harness(profile="dev"):
     """Rebuilds the harness (and pushr from /repo's working tree, hooks on). A no-op when unchanged."""
     env = dict(os.environ, CARGO_NET_OFFLINE="true")
     cmd = ["cargo", "build", "--offline", "--bins"] + (["--release"] if profile == "release" else [])
+    if ALT:
+        cmd += ["--config", 'paths=["%s"]' % REPO, "--target-dir", _target_root()]
     r = run(cmd, cwd=HARNESS, env=env)
     if r.returncode != 0:
         raise ToolError("harness build failed (%s):\n%s" % (profile, r.stdout[-4000:]))
-    return os.path.join(HARNESS, "target", "release" if profile == "release" else "debug")
+    return os.path.join(_target_root(), "release" if profile == "release" else "debug")
 
 
 def bin_path(name, profile="dev"):
-    return os.path.join(HARNESS, "target", "release" if profile == "release" else "debug", name)
+    return os.path.join(_target_root(), "release" if profile == "release" else "debug", name)
 
 
 # ---------------------------------------------------------------------------------------------
@@ -86,7 +102,7 @@ def run_mc_step(tag, instrs, pools, workdir, workers=8, timeout=1800):
     ensure_links()
     workdir = os.path.abspath(workdir)
     os.makedirs(workdir, exist_ok=True)
-    mod = "MCrun_" + re.sub(r"[^A-Za-z0-9]", "_", tag)
+    mod = "MCrun_%d_" % os.getpid() + re.sub(r"[^A-Za-z0-9]", "_", tag)
     p = dict(IntVals=[-2147483648, -1, 0, 1, 2, 2147483647], FloatVals=[0, 1065353216], NameVals=["a", "b"],
              CodePool="atoms", VecPool="small", DInt=2, DFloat=2, DBool=2, DName=2, DCode=2, DExec=2, DVec=2,
              Interp=False, invariants=["FrameInv", "StackLaws", "Emit"])
@@ -170,26 +186,31 @@ def get_base():
     """The sentinel state of MC_Step, printed by TLC once and cached by content hash of the module."""
     ensure_links()
     h = hashlib.sha1(open(os.path.join(MC, "MC_Step.tla"), "rb").read() + open(os.path.join(SPEC, "PushState.tla"), "rb").read()).hexdigest()[:12]
-    cache = os.path.join(OUT, "base_%s.json" % h)
+    cache = os.path.join(VERIF, "out", "base_%s.json" % h)
     if os.path.exists(cache):
         return json.load(open(cache))
     os.makedirs(OUT, exist_ok=True)
-    mod = "MCbase"
+    mod = "MCbase_%d" % os.getpid()
     with open(os.path.join(MC, mod + ".tla"), "w") as f:
-        f.write('---- MODULE MCbase ----\nEXTENDS MC_Step\nASSUME PrintT("BASE " \\o ToJson(Base))\n====\n')
-    cfg = os.path.join(OUT, "MCbase.cfg")
+        f.write('---- MODULE %s ----\nEXTENDS MC_Step\nASSUME PrintT("BASE " \\o ToJson(Base))\n====\n' % mod)
+    cfg = os.path.join(OUT, mod + ".cfg")
     with open(cfg, "w") as f:
         f.write('INIT Init\nNEXT Next\nCONSTANTS\n Instrs = {}\n IntVals = {}\n FloatVals = {}\n NameVals = {}\n CodePool = "atoms"\n VecPool = "small"\n DInt = 0\n DFloat = 0\n DBool = 0\n DName = 0\n DCode = 0\n DExec = 0\n DVec = 0\n Interp = FALSE\n')
     r = run(["timeout", "300", "tlc", "-workers", "1", "-config", cfg, "-metadir", os.path.join(OUT, "states_base"),
              "-cleanup", "-noGenerateSpecTE", mod + ".tla"], cwd=MC, env=tlc_env())
-    os.remove(os.path.join(MC, mod + ".tla"))
+    try:
+        os.remove(os.path.join(MC, mod + ".tla"))
+    except OSError:
+        pass
     shutil.rmtree(os.path.join(OUT, "states_base"), ignore_errors=True)
     for line in r.stdout.splitlines():
         if line.startswith('"BASE '):
             base = json.loads(json.loads(line)[5:])
             if base.get("bind") == []:
                 base["bind"] = {}
-            json.dump(base, open(cache, "w"))
+            tmp = cache + ".%d" % os.getpid()
+            json.dump(base, open(tmp, "w"))
+            os.replace(tmp, cache)
             return base
     raise ToolError("could not obtain Base from TLC:\n" + r.stdout[-2000:])
 
@@ -271,7 +292,7 @@ def exec_cases(cases_path, events_path, profile="dev", mem_kb=4 * 1024 * 1024, t
 def _truncate_case(events_path, cid):
     if not os.path.exists(events_path):
         return
-    lines = open(events_path).read().splitlines(True)
+    lines = [ln + "\n" for ln in open(events_path, encoding="utf-8").read().split("\n") if ln]
     keep = []
     for ln in lines:
         if not ln.endswith("\n"):
@@ -282,7 +303,7 @@ def _truncate_case(events_path, cid):
         except ValueError:
             continue
         keep.append(ln)
-    open(events_path, "w").writelines(keep)
+    open(events_path, "w", encoding="utf-8").writelines(keep)
 
 
 # ---------------------------------------------------------------------------------------------
@@ -314,25 +335,56 @@ def validate_events(events_path, workdir, spec="Trace", chunk=4000, jobs=None, e
         open(p, "w").writelines(c)
         paths.append((k, p, len(c)))
 
-    def one(arg):
-        k, p, cnt = arg
+    def run_tlc(k, p, sub):
         env = tlc_env(dict(TRACE=p), deque=True)
         if extra_env:
             env.update(extra_env)
-        r = run(["timeout", str(timeout), "tlc", "-workers", "1", "-config", spec + ".cfg", "-metadir",
-                 os.path.join(workdir, "st_%04d" % k), "-cleanup", "-noGenerateSpecTE", spec + ".tla"], cwd=SPEC, env=env)
-        shutil.rmtree(os.path.join(workdir, "st_%04d" % k), ignore_errors=True)
+        md = os.path.join(workdir, "st_%04d_%d" % (k, sub))
+        r = run(["timeout", str(timeout), "tlc", "-workers", "1", "-config", spec + ".cfg", "-metadir", md,
+                 "-cleanup", "-noGenerateSpecTE", spec + ".tla"], cwd=SPEC, env=env)
+        shutil.rmtree(md, ignore_errors=True)
         vs, done = [], None
         for line in r.stdout.splitlines():
             if line.startswith('"EV '):
-                v = json.loads(json.loads(line)[3:])
-                v["chunk"] = k
-                vs.append(v)
+                vs.append(json.loads(json.loads(line)[3:]))
             elif line.startswith('"DONE '):
                 done = int(json.loads(line)[5:])
-        if done != cnt:
-            raise ToolError("trace validation did not consume chunk %s (%s of %s events):\n%s" % (p, done, cnt, r.stdout[-3000:]))
-        return vs
+        return vs, done, r.stdout
+
+    def one(arg):
+        """validates one chunk; an event on which TLC cannot evaluate the specification at all (a
+        recorded state outside anything the model can represent) is reported as a mismatch owned by
+        every property, and validation resumes at the next case"""
+        k, p, cnt = arg
+        lines = [ln + "\n" for ln in open(p, encoding="utf-8").read().split("\n") if ln]   # only \n ends an event
+        out, offset, sub = [], 0, 0
+        while offset < len(lines):
+            part = p if offset == 0 else p + ".part%d" % sub
+            if offset:
+                open(part, "w", encoding="utf-8").writelines(lines[offset:])
+            vs, done, text = run_tlc(k, part, sub)
+            for v in vs:
+                v["l"] += offset
+                v["chunk"] = k
+            out.extend(vs)
+            if done == len(lines) - offset:
+                break
+            m = re.findall(r"/\\ l = (\d+)", text)
+            if not m or "Error" not in text or sub > 20:
+                raise ToolError("trace validation did not consume chunk %s (%s of %s events):\n%s" % (part, done, len(lines) - offset, text[-3000:]))
+            bad = int(m[-1])                       # 1-based index (within this part) of the event being consumed
+            e = json.loads(lines[offset + bad - 1])
+            reason = re.search(r"Error: (.*?)\n\n", text, re.S)
+            out.append({"l": offset + bad, "id": e.get("id"), "i": e.get("i"), "chunk": k,
+                        "j": {"v": "mismatch", "subj": "spec-eval:" + str(e.get("act", {}).get("a")), "owner": "*", "dev": "",
+                              "fields": [], "frame": [], "msg": "the recorded state is outside what the specification can evaluate: " +
+                              (reason.group(1)[:300] if reason else "TLC evaluation error")}})
+            out = [v for v in out if v["l"] <= offset + bad]
+            nxt = offset + bad
+            while nxt < len(lines) and '"pre"' not in lines[nxt]:
+                nxt += 1
+            offset, sub = nxt, sub + 1
+        return out
 
     verdicts = []
     with ThreadPoolExecutor(max_workers=jobs) as ex:
